@@ -23,6 +23,7 @@ type slotSummary struct {
 	pos    token.Pos
 	why    string    // for form == other
 	callee *FuncUnit // dispatch: the per-class method the arm hands the node to
+	calls  bool      // dispatch: the arm calls some function of the package (which may read the slots)
 }
 
 func (s slotSummary) String() string {
@@ -61,7 +62,57 @@ func (a *armNorm) norm(e ast.Expr) string {
 		s = strings.ReplaceAll(s, rw[0], rw[1])
 	}
 	s = strings.ReplaceAll(s, "int(N.keys[ι])", "N.keys[ι]")
+	s = slotParens.ReplaceAllString(s, "$1")
 	return s
+}
+
+// (N.children[ι]).pointer → N.children[ι].pointer: the parentheses the printer puts around an
+// operand whose index had spaces are noise once the index is ι
+var slotParens = regexp.MustCompile(`\((N\.[A-Za-z_]+\[ι\])\)`)
+
+// affineLin: e = coef·v + off with coef ∈ {-1,0,+1} and off a linear form (a symbolic base such as
+// N.childrenLen plus a constant); conversions stripped.
+func (a *armNorm) affineLin(e ast.Expr, v string) (coef int, off linForm, ok bool) {
+	info := a.c.m.Info
+	e = ast.Unparen(e)
+	if !mentionsIdent(e, v) {
+		l, ok := a.lin(e)
+		return 0, l, ok
+	}
+	switch x := e.(type) {
+	case *ast.Ident:
+		if x.Name == v {
+			return 1, linForm{}, true
+		}
+	case *ast.CallExpr:
+		if isConversion(info, x) && len(x.Args) == 1 {
+			return a.affineLin(x.Args[0], v)
+		}
+	case *ast.BinaryExpr:
+		if x.Op != token.ADD && x.Op != token.SUB {
+			return 0, linForm{}, false
+		}
+		cl, ol, ok1 := a.affineLin(x.X, v)
+		cr, or, ok2 := a.affineLin(x.Y, v)
+		if !ok1 || !ok2 {
+			return 0, linForm{}, false
+		}
+		if x.Op == token.SUB {
+			if or.base != "" {
+				return 0, linForm{}, false
+			}
+			cr, or = -cr, linForm{"", -or.off}
+		}
+		if ol.base != "" && or.base != "" {
+			return 0, linForm{}, false
+		}
+		coef = cl + cr
+		if coef < -1 || coef > 1 {
+			return 0, linForm{}, false
+		}
+		return coef, linForm{ol.base + or.base, ol.off + or.off}, true
+	}
+	return 0, linForm{}, false
 }
 
 // linForm: an expression of the form X, X±c or c (conversions and parentheses stripped), with X
@@ -347,22 +398,24 @@ func (a *armNorm) loopHeader(st ast.Stmt) (body *ast.BlockStmt, dir, domain, why
 		return nil, "", "", ""
 	}
 	// the index expressions into the arrays of the node that are affine in the loop variable
-	coef, off, seen := 0, int64(0), false
+	coef, off, seen := 0, linForm{}, false
 	conflict := false
 	a.idx[ivar] = ph
+	var spellings []string
 	ast.Inspect(body, func(n ast.Node) bool {
 		ie, ok := n.(*ast.IndexExpr)
 		if !ok || !mentionsIdent(ie.Index, ivar) {
 			return true
 		}
-		cf, o, isAff := a.affineIn(ie.Index, ivar)
-		if !isAff {
+		cf, o, isAff := a.affineLin(ie.Index, ivar)
+		if !isAff || cf == 0 {
 			return true // e.g. N.children[N.keys[i]-1]: the inner index is looked at on its own
 		}
 		if seen && (cf != coef || o != off) {
 			conflict = true
 		}
 		coef, off, seen = cf, o, true
+		spellings = append(spellings, a.norm(ie.Index))
 		return true
 	})
 	if conflict {
@@ -370,17 +423,23 @@ func (a *armNorm) loopHeader(st ast.Stmt) (body *ast.BlockStmt, dir, domain, why
 		return nil, "", "", "the loop indexes the node with two different expressions of its variable"
 	}
 	if !seen {
-		coef, off = 1, 0
+		coef, off = 1, linForm{}
 	}
 	// ι = coef·i + off: its values at the first and the last iteration
 	at := func(l linForm) (linForm, bool) {
 		if coef == 1 {
-			return linForm{l.base, l.off + off}, true
+			if l.base != "" && off.base != "" {
+				return linForm{}, false
+			}
+			return linForm{l.base + off.base, l.off + off.off}, true
 		}
-		if l.base != "" {
-			return linForm{}, false
+		switch {
+		case l.base == off.base:
+			return linForm{"", off.off - l.off}, true
+		case l.base == "":
+			return linForm{off.base, off.off - l.off}, true
 		}
-		return linForm{"", off - l.off}, true
+		return linForm{}, false
 	}
 	lo, ok1 := at(first)
 	hi, ok2 := at(last)
@@ -405,18 +464,24 @@ func (a *armNorm) loopHeader(st ast.Stmt) (body *ast.BlockStmt, dir, domain, why
 	}
 	// map the index expression to ι
 	switch {
-	case coef == 1 && off == 0:
+	case coef == 1 && off == (linForm{}):
 		a.idx[ivar] = "ι"
 	default:
-		// normalised spellings of coef·§ + off
+		// the spellings the index actually has in the body, then the normal spellings of coef·§ + off
+		for _, sp := range spellings {
+			if sp != ph {
+				a.post = append(a.post, [2]string{sp, "ι"})
+			}
+		}
 		var forms []string
 		switch {
-		case coef == 1 && off > 0:
-			forms = []string{fmt.Sprintf("(%s + %d)", ph, off)}
-		case coef == 1 && off < 0:
-			forms = []string{fmt.Sprintf("(%s - %d)", ph, -off)}
+		case off.base != "":
+		case coef == 1 && off.off > 0:
+			forms = []string{fmt.Sprintf("(%s + %d)", ph, off.off)}
+		case coef == 1 && off.off < 0:
+			forms = []string{fmt.Sprintf("(%s - %d)", ph, -off.off)}
 		case coef == -1:
-			forms = []string{fmt.Sprintf("(%d - %s)", off, ph)}
+			forms = []string{fmt.Sprintf("(%d - %s)", off.off, ph)}
 		}
 		for _, f := range forms {
 			a.post = append(a.post, [2]string{f, "ι"}, [2]string{"int" + f, "ι"}, [2]string{"uint8" + f, "ι"})
@@ -557,6 +622,11 @@ func (c *Ctx) summariseStmts(stmts []ast.Stmt, nodeName, byteVar string, pos tok
 			for _, st := range rest {
 				ast.Inspect(st, func(n ast.Node) bool {
 					call, ok := n.(*ast.CallExpr)
+					if ok && !isConversion(info, call) {
+						if cu := c.m.calleeUnit(call); cu != nil {
+							s.calls = true
+						}
+					}
 					if !ok || s.callee != nil {
 						return true
 					}
@@ -992,9 +1062,16 @@ func (c *Ctx) summariseStmts(stmts []ast.Stmt, nodeName, byteVar string, pos tok
 
 // kindSwitches returns the switches over a node kind in a unit with their arms per kind.
 func (c *Ctx) kindSwitches(u *FuncUnit) []*ast.SwitchStmt {
+	if u.Body == nil {
+		return nil
+	}
+	return c.kindSwitchesIn(u.Body, u.Lit)
+}
+
+func (c *Ctx) kindSwitchesIn(body ast.Node, self *ast.FuncLit) []*ast.SwitchStmt {
 	var out []*ast.SwitchStmt
-	ast.Inspect(u.Body, func(n ast.Node) bool {
-		if lit, ok := n.(*ast.FuncLit); ok && ast.Node(lit) != ast.Node(u.Lit) {
+	ast.Inspect(body, func(n ast.Node) bool {
+		if lit, ok := n.(*ast.FuncLit); ok && (self == nil || ast.Node(lit) != ast.Node(self)) {
 			return false
 		}
 		if sw, ok := n.(*ast.SwitchStmt); ok && sw.Tag != nil {
@@ -1017,8 +1094,48 @@ func ruleR09R19(c *Ctx) {
 	}
 	sums := map[armKey]slotSummary{}
 	var units []string
+	specOrig := map[string]string{} // name of a specialised copy → the unit it was made from
+	specRole := map[string]string{} // … → the one function that calls it with this flag value
+	type swUnit struct {
+		u    *FuncUnit
+		name string
+		sws  []*ast.SwitchStmt
+	}
+	var work []swUnit
 	for _, u := range c.sortedUnits() {
-		for _, sw := range c.kindSwitches(u) {
+		// a traversal merged with its mirror image behind a boolean parameter that every caller
+		// sets to a constant (walk(root, restore, descending)): one copy per value (specialise.go)
+		if fps := c.flagParams(u); len(fps) == 1 && len(c.kindSwitches(u)) > 0 {
+			fp := fps[0]
+			made := 0
+			for _, val := range fp.values {
+				body := c.specialiseUnit(u, map[*types.Var]bool{fp.v: val})
+				if body == nil {
+					continue
+				}
+				name := fmt.Sprintf("%s[%s=%v]", u.Name, fp.v.Name(), val)
+				specOrig[name] = u.Name
+				callers := map[string]bool{}
+				for _, cn := range fp.byVal[val] {
+					callers[cn] = true
+				}
+				if len(callers) == 1 {
+					for cn := range callers {
+						specRole[name] = cn
+					}
+				}
+				work = append(work, swUnit{u, name, c.kindSwitchesIn(body, nil)})
+				made++
+			}
+			if made > 0 {
+				continue
+			}
+		}
+		work = append(work, swUnit{u, u.Name, c.kindSwitches(u)})
+	}
+	for _, w := range work {
+		u := w.u
+		for _, sw := range w.sws {
 			// the probed byte variable, if the function has one (findChild(b) / Search: b := key[depth])
 			byteVar := ""
 			ast.Inspect(u.Body, func(n ast.Node) bool {
@@ -1057,9 +1174,65 @@ func ruleR09R19(c *Ctx) {
 					if m.kindByValue(kv) == nil {
 						continue
 					}
-					sums[armKey{u.Name, kv}] = c.summariseArm(cc, byteVar)
+					sums[armKey{w.name, kv}] = c.summariseArm(cc, byteVar)
 				}
 			}
+			units = append(units, w.name)
+		}
+	}
+	// a unit that reaches the per-layout code through an interface of the package instead of a
+	// switch over the tag (ref.inner().findChild(b)): the method of each layout is that kind's arm
+	for _, u := range c.sortedUnits() {
+		if u.Body == nil || len(c.kindSwitches(u)) > 0 {
+			continue
+		}
+		added := false
+		ast.Inspect(u.Body, func(n ast.Node) bool {
+			if _, isLit := n.(*ast.FuncLit); isLit {
+				return false
+			}
+			call, ok := n.(*ast.CallExpr)
+			if !ok {
+				return true
+			}
+			f := m.staticCallee(call)
+			if f == nil || f.Pkg() != m.Pkg || m.ByObj[f] != nil {
+				return true
+			}
+			for _, iu := range m.implementers(f) {
+				if iu.Body == nil || iu.Decl == nil || iu.Decl.Recv == nil || len(iu.Decl.Recv.List) != 1 || len(iu.Decl.Recv.List[0].Names) != 1 {
+					continue
+				}
+				rs := iu.Obj.Type().(*types.Signature).Recv().Type()
+				if p, ok := rs.(*types.Pointer); ok {
+					rs = p.Elem()
+				}
+				ki := m.kindByStruct(rs)
+				if ki == nil {
+					continue
+				}
+				if res := iu.Obj.Type().(*types.Signature).Results(); res.Len() != 1 || !(c.isNodeRefType(res.At(0).Type()) || isUnsafePointer(res.At(0).Type())) {
+					continue // only what hands a child back is a lookup or an enumeration
+				}
+				bv := ""
+				for _, fl := range iu.Decl.Type.Params.List {
+					if b, ok := info.TypeOf(fl.Type).Underlying().(*types.Basic); ok && b.Kind() == types.Uint8 {
+						for _, nm := range fl.Names {
+							bv = nm.Name
+						}
+					}
+				}
+				inner := c.summariseStmts(iu.Body.List, iu.Decl.Recv.List[0].Names[0].Name, bv, iu.Decl.Pos())
+				if inner.form == "lookup" || inner.form == "enumerate" || inner.form == "extreme" {
+					if _, has := sums[armKey{u.Name, ki.Value}]; !has {
+						sums[armKey{u.Name, ki.Value}] = inner
+						added = true
+					}
+				}
+			}
+			return true
+		})
+		if added {
 			units = append(units, u.Name)
 		}
 	}
@@ -1075,8 +1248,14 @@ func ruleR09R19(c *Ctx) {
 		canon[k.Value] = s
 		c.r.ok("R09", "canonical byte→child table of "+k.Name, m.pos(s.pos), s.String(), "C02", "C10")
 	}
+	orig := func(name string) string {
+		if o, ok := specOrig[name]; ok {
+			return o
+		}
+		return name
+	}
 	propsFor := func(name string) []string {
-		u := m.ByName[name]
+		u := m.ByName[orig(name)]
 		if u == nil {
 			return []string{"C02"}
 		}
@@ -1096,7 +1275,7 @@ func ruleR09R19(c *Ctx) {
 		// a traversal that no operation named by a property reaches (a new statistics or debugging
 		// walk) is outside what the properties quantify over
 		ordered := true
-		if uu := m.ByName[name]; uu != nil && name != "nodeRef.findChild" {
+		if uu := m.ByName[orig(name)]; uu != nil && name != "nodeRef.findChild" {
 			if len(c.attribute(uu, "C01", "C02", "C03", "C04", "C05", "C08", "C09")) == 0 {
 				nOutside++
 				continue
@@ -1113,6 +1292,19 @@ func ruleR09R19(c *Ctx) {
 			cn, hasCanon := canon[k.Value]
 			switch s.form {
 			case "dispatch":
+				// an arm that reads no slot and hands the node to nobody, next to arms that
+				// enumerate the children: the subtrees below nodes of this class are never visited
+				if s.callee == nil && !s.calls {
+					enumSiblings := 0
+					for _, k2 := range m.Kinds {
+						if s2, ok := sums[armKey{name, k2.Value}]; ok && s2.form == "enumerate" {
+							enumSiblings++
+						}
+					}
+					if enumSiblings >= 2 {
+						c.r.bad("R09", key, m.pos(s.pos), fmt.Sprintf("the arm reads no child slot of the node while %d sibling arms enumerate theirs: the subtrees below nodes of this size class are never visited", enumSiblings), props...)
+					}
+				}
 				continue
 			case "other":
 				c.r.undecided("R09", key, m.pos(s.pos), "cannot summarise how this arm reads the children: "+s.why, props...)
@@ -1132,6 +1324,9 @@ func ruleR09R19(c *Ctx) {
 				}
 				// direction: stack-based traversals push in the reverse of the visiting order
 				base := name
+				if role, ok := specRole[name]; ok {
+					base = role
+				}
 				if i := strings.IndexByte(base, '$'); i >= 0 {
 					base = base[:i]
 				}
@@ -1170,9 +1365,13 @@ func ruleR09R19(c *Ctx) {
 					continue
 				}
 				var errs []string
-				wantDir := map[string]string{"minimum": "first", "maximum": "last"}[name]
+				roleName := name
+				if role, ok := specRole[name]; ok {
+					roleName = role
+				}
+				wantDir := map[string]string{"minimum": "first", "maximum": "last"}[roleName]
 				if wantDir != "" && s.dir != wantDir {
-					errs = append(errs, fmt.Sprintf("%s picks the %s occupied slot", name, s.dir))
+					errs = append(errs, fmt.Sprintf("%s picks the %s occupied slot", roleName, s.dir))
 				}
 				if s.domain != cn.domain {
 					errs = append(errs, "scans "+s.domain+" but lookups use "+cn.domain)
